@@ -122,6 +122,7 @@ impl<'a> PosCheck<'a> {
             }
         };
         let fen = p.fen4();
+        crate::crumb::set(&[self.which.replay_cmd(), "--fen", &fen]);
         let legal = p.legal_moves();
         let in_check = p.in_check(p.stm);
 
